@@ -1482,22 +1482,19 @@ def run_dtypes(chk, kind, form):
 
 
 # ----------------------------------------------------------------------
-# Part J: error paths -- a rejected call raises the documented exception AND leaves everything as it was
+# Part J: invalid calls (tools/INVALID_CALL_POLICY.md).  C19 quantifies over valid shapes / positions / ratios /
+# sizes, so what an invalid call does AS A CALL (raise, which type, accept, change the object) is only recorded as
+# an outcome.  Required: afterwards the object is a coherent instance for the property -- every relation holds
+# for the state it REPORTS (pos / radius / rotation / vertices / users it lists), it stays usable, later valid
+# calls behave like on a fresh object in the same reported configuration, and clusters built afterwards are
+# right.  Violations found this way carry the signature after_invalid_call|<what>|<relation>.
 # ----------------------------------------------------------------------
-def behaviour(obj):
-    """what later queries see (cells / shapes / clusters)"""
-    from pyphysim.cell import cell as cellmod
-    out = {"digest": vbfs.digest(obj)}
-    if isinstance(obj, cellmod.Cluster):
-        out["cells"] = [behaviour(c) for c in obj]
-        out["dist"] = np.asarray(obj.calc_dist_all_users_to_each_cell()).tolist()
-        out["wrapped"] = sorted(obj._wrapped_cells)
-        return out
-    out["vertices"] = np.array(obj.vertices, dtype=complex).tolist()
-    out["users"] = [(complex(u.pos), u.cell_id, u.relative_pos, u.marker_color) for u in obj.users]
-    out["inside_centre"] = bool(obj.is_point_inside_shape(complex(obj.pos)))
-    out["border"] = complex(obj.get_border_point(33.0, 0.5))
-    return out
+def reported_state(obj):
+    """only for the outcome 'object_changed' / 'object_unchanged' -- never judged"""
+    try:
+        return vbfs.digest(obj)
+    except Exception:  # noqa
+        return None
 
 
 ERROR_CASES = ["border_user_ratio_list", "border_user_ratio_scalar", "add_user_outside", "add_user_not_a_node",
@@ -1506,19 +1503,98 @@ ERROR_CASES = ["border_user_ratio_list", "border_user_ratio_scalar", "add_user_o
                "cluster_border_users_bad_ratio", "delete_users_on_empty"]
 
 
+def coherent_cell(chk, obj, kind, sig, case):
+    """the property's relations for the state a cell reports + usability + differential with a fresh cell"""
+    centre, r, rot = complex(obj.pos), float(np.real(obj.radius)), obj.rotation
+    v = np.array(obj.vertices, dtype=complex)
+    mv, _ = model_vertices(kind, centre, r, rot)
+    if not same_point_set(v, mv, TOL * r):
+        chk.fail(sig + ("vertices_differ_from_model_of_reported_parameters",), case, observed=v, expected=mv)
+        return
+    vl = [complex(z) for z in v]
+    probes = [centre + f * (q - centre) for q in mv for f in (0.9, 1.1)]
+    for q in probes:
+        if bool(obj.is_point_inside_shape(q)) != inside1(vl, q):
+            chk.fail(sig + ("containment_vs_own_vertices",), dict(case, point=q), observed=not inside1(vl, q),
+                     expected=inside1(vl, q))
+            return
+    for usr in obj.users:
+        p = complex(usr.pos)
+        if bdist1(vl, p) > TOL * r and not inside1(vl, p):
+            chk.fail(sig + ("listed_user_outside_the_cell",), case, observed=p,
+                     expected="every user the cell lists lies inside the polygon of its own vertices")
+            return
+        if not kind.startswith("CellWrap(") and (usr.relative_pos is None or
+                                                 abs(complex(usr.relative_pos) - (p - centre)) > TOL * r):
+            chk.fail(sig + ("listed_user_relative_pos",), case, observed=usr.relative_pos, expected=p - centre)
+            return
+    if kind.startswith("CellWrap("):
+        return
+    # later valid calls: like on a fresh cell in the same reported configuration
+    base = kind
+    fresh = build_shape(base, centre, r if base != "CellSquare" else r, rot)
+    got, want = [], []
+    for o, acc in ((obj, got), (fresh, want)):
+        n0 = len(o.users)
+        o.add_border_user([45.0, -100.0], [0.5, 0.999])
+        acc.extend(complex(u.pos) for u in o.users[n0:])
+        acc.extend(place_users(base, o))
+    if len(got) != len(want) or any(abs(x - y) > TOL * r for x, y in zip(got, want)):
+        chk.fail(sig + ("later_valid_calls_differ_from_fresh_cell",), case, observed=got, expected=want)
+        return
+    for p in got:
+        if bdist1(vl, p) > TOL * r and not inside1(vl, p):
+            chk.fail(sig + ("later_user_outside_the_cell",), case, observed=p, expected="inside")
+            return
+
+
+def coherent_cluster(chk, cl, ctype, sig, case):
+    cells = list(cl)
+    n = len(cells)
+    r = float(np.real(cl.cell_radius))
+    got = check_cluster_geometry(chk, cl, n, ctype, r, complex(cl.pos), cl.rotation, case, sig)
+    if got is None:
+        return
+    _, P = got
+    su = scripted_defaults(40 * NDIR)
+    with patched((np.random, "random_sample", su.random_sample)):
+        cl.add_random_users(1, 1, None, 0.3)            # later valid call
+    cl.add_border_users(2 if n > 1 else 1, 30.0, 0.5)
+    users = []
+    for i, c in enumerate(cells):
+        kindname = {"simple": "Cell", "3sec": "Cell3Sec", "square": "CellSquare"}[ctype]
+        vl = [complex(z) for z in np.array(c.vertices, dtype=complex)]
+        for u in c.users:
+            p = complex(u.pos)
+            users.append(p)
+            if bdist1(vl, p) > TOL * r and not inside1(vl, p):
+                chk.fail(sig + ("listed_user_outside_its_cell",), dict(case, cell=i + 1, kind=kindname), observed=p,
+                         expected="inside the cell that lists it")
+                return
+    allu = [complex(u.pos) for u in cl.get_all_users()]
+    if allu != users:
+        chk.fail(sig + ("get_all_users_differs_from_the_cells_lists",), case, observed=allu, expected=users)
+        return
+    want = np.array([[abs(u - c) for c in P] for u in users]).reshape(len(users), n)
+    for name in ("calc_dist_all_users_to_each_cell", "calc_dist_all_users_to_each_cell_no_wrap_around"):
+        d = np.asarray(getattr(cl, name)())
+        if d.shape != want.shape or (want.size and np.max(np.abs(d - want)) > 1e-12 * (1 + np.max(want))):
+            chk.fail(sig + ("distance_matrix_vs_brute_force",), dict(case, method=name), observed=d, expected=want)
+            return
+
+
 def run_error_path(chk, name, kind, rot):
     from pyphysim.cell import cell
     pos, r = 1 + 2j, 2.5
     case = {"part": "error_path", "name": name, "kind": kind, "rotation": rot}
-    sig0 = ("error_path", name)
+    sig0 = ("after_invalid_call", name)
     with chk.guard(sig0, case):
-        chk.count("eval_error_paths")
+        chk.count("eval_invalid_calls")
         su = scripted_defaults()
-        draws_before = 0
-        expect = None
-        extra_same = []            # (label, snapshot function) of other objects that must not change either
-        if name.startswith("cluster") or name in ("wrap_around_unsupported_size", "delete_users_on_empty"):
-            ctype = {"Cell": "simple", "Cell3Sec": "3sec", "CellSquare": "square"}[kind]
+        is_cluster = name.startswith("cluster") or name in ("wrap_around_unsupported_size", "delete_users_on_empty")
+        ctype = {"Cell": "simple", "Cell3Sec": "3sec", "CellSquare": "square"}[kind]
+        inner = None
+        if is_cluster:
             n = 4 if ctype == "square" else 7
             obj = cell.Cluster(cell_radius=r, num_cells=n, pos=pos, cell_type=ctype, rotation=rot)
             if name != "delete_users_on_empty":
@@ -1529,77 +1605,51 @@ def run_error_path(chk, name, kind, rot):
         if name == "cellwrap_readonly_setters":
             inner = obj
             obj = cell.CellWrap(pos + 7, inner, include_users_bool=True)
-            extra_same.append(inner)
-        before = behaviour(obj)
-        before_extra = [behaviour(x) for x in extra_same]
         node = cell.Node(pos + 40 * r, marker_color="g")
         calls = {
-            "border_user_ratio_list": (ValueError, lambda: obj.add_border_user([0.0, 90.0, 180.0], [0.5, 0.25, 1.5])),
-            "border_user_ratio_scalar": (ValueError, lambda: obj.add_border_user(10.0, -0.25)),
-            "add_user_outside": (ValueError, lambda: obj.add_user(node, relative_pos_bool=False)),
-            "add_user_not_a_node": ((TypeError, AttributeError), lambda: obj.add_user(pos)),
-            "invalid_sector": (RuntimeError, lambda: obj.add_random_user_in_sector(0)),
-            "invalid_sector_many": (RuntimeError, lambda: obj.add_random_users_in_sector(2, 4, None, 0.3)),
-            "cluster_bad_square_size": (ValueError, lambda: cell.Cluster(r, 5, pos=pos, cell_type="square", rotation=rot)),
-            "cluster_bad_cell_type": (RuntimeError, lambda: cell.Cluster(r, 7, pos=pos, cell_type="octagon", rotation=rot)),
-            "wrap_around_unsupported_size": (RuntimeError, lambda: obj.create_wrap_around_cells()),
-            "cluster_readonly_setters": (AttributeError, None),
-            "cellwrap_readonly_setters": (AttributeError, None),
-            "cluster_border_users_bad_ratio": (ValueError, lambda: obj.add_border_users(1, [0.0, 90.0], [0.5, 1.5])),
-            "delete_users_on_empty": (None, None),
+            "border_user_ratio_list": [lambda: obj.add_border_user([0.0, 90.0, 180.0], [0.5, 0.25, 1.5])],
+            "border_user_ratio_scalar": [lambda: obj.add_border_user(10.0, -0.25)],
+            "add_user_outside": [lambda: obj.add_user(node, relative_pos_bool=False)],
+            "add_user_not_a_node": [lambda: obj.add_user(pos)],
+            "invalid_sector": [lambda: obj.add_random_user_in_sector(0)],
+            "invalid_sector_many": [lambda: obj.add_random_users_in_sector(2, 4, None, 0.3)],
+            "cluster_bad_square_size": [lambda: cell.Cluster(r, 5, pos=pos, cell_type="square", rotation=rot)],
+            "cluster_bad_cell_type": [lambda: cell.Cluster(r, 7, pos=pos, cell_type="octagon", rotation=rot)],
+            "wrap_around_unsupported_size": [lambda: obj.create_wrap_around_cells()],
+            "cluster_readonly_setters": [lambda: setattr(obj, "pos", 0j), lambda: setattr(obj, "radius", 1.0),
+                                         lambda: setattr(obj, "rotation", 0.0)],
+            "cellwrap_readonly_setters": [lambda: setattr(obj, "radius", 1.0), lambda: setattr(obj, "rotation", 0.0)],
+            "cluster_border_users_bad_ratio": [lambda: obj.add_border_users(1, [0.0, 90.0], [0.5, 1.5])],
+            "delete_users_on_empty": [lambda: obj.delete_all_users(), lambda: obj.delete_all_users(2),
+                                      lambda: obj.delete_all_users([1, 3]),
+                                      lambda: obj.get_cell_by_id(1).delete_all_users()],
         }
-        exc, fn = calls[name]
-        fns = [fn]
-        if name == "cluster_readonly_setters":
-            fns = [lambda: setattr(obj, "pos", 0j), lambda: setattr(obj, "radius", 1.0),
-                   lambda: setattr(obj, "rotation", 0.0)]
-        elif name == "cellwrap_readonly_setters":
-            fns = [lambda: setattr(obj, "radius", 1.0), lambda: setattr(obj, "rotation", 0.0)]
-        elif name == "delete_users_on_empty":
-            fns = [lambda: obj.delete_all_users(), lambda: obj.delete_all_users(2), lambda: obj.delete_all_users([1, 3]),
-                   lambda: obj.get_cell_by_id(1).delete_all_users()]
-        for k, f in enumerate(fns):
-            raised = None
+        for k, f in enumerate(calls[name]):
+            before = reported_state(obj)
+            how = "accepted"
             with patched((np.random, "random_sample", su.random_sample)):
                 try:
                     f()
-                except Exception as e:  # noqa
-                    raised = e
-            if exc is None:
-                if raised is not None:
-                    chk.fail(sig0 + ("raised",), dict(case, step=k), observed=repr(raised), expected="no exception")
-            elif not isinstance(raised, exc):
-                chk.fail(sig0 + ("documented_exception_not_raised",), dict(case, step=k), observed=repr(raised),
-                         expected=getattr(exc, "__name__", repr(exc)))
-            if su.draws != draws_before:
-                chk.fail(sig0 + ("random_draws_consumed_by_a_rejected_call",), dict(case, step=k), observed=su.draws,
-                         expected=draws_before)
-            after = behaviour(obj)
-            if after != before:
-                diff = [key for key in before if before[key] != after.get(key)]
-                chk.fail(sig0 + ("object_changed_by_a_rejected_call",), dict(case, step=k), observed=diff,
-                         expected="digest and every later query unchanged")
-            for x, b in zip(extra_same, before_extra):
-                if behaviour(x) != b:
-                    chk.fail(sig0 + ("other_object_changed_by_a_rejected_call",), dict(case, step=k))
-        if name == "add_user_outside":
-            if complex(node.pos) != pos + 40 * r or node.cell_id is not None or node.relative_pos is not None \
-                    or node.marker_color != "g":
-                chk.fail(sig0 + ("rejected_node_modified",), case, observed=(node.pos, node.cell_id, node.relative_pos),
-                         expected=(pos + 40 * r, None, None))
+                except Exception as e:  # noqa -- free: any type, late, or not at all
+                    how = "raised:" + type(e).__name__
+            changed = "object_unchanged" if reported_state(obj) == before else "object_changed"
+            chk.outcome("invalid_call", (name, kind, k, how, changed, "draws:%d" % su.draws))
+            chk.count("invalid_calls_" + ("raised" if how != "accepted" else "accepted"))
+        # required: coherence of what the object reports, usability, later valid calls, later objects
+        if is_cluster:
+            coherent_cluster(chk, obj, ctype, sig0, case)
+        elif inner is not None:
+            coherent_cell(chk, obj, "CellWrap(%s)" % kind, sig0, case)
+            coherent_cell(chk, inner, kind, sig0 + ("wrapped_cell",), case)
+        else:
+            coherent_cell(chk, obj, kind, sig0, case)
         if name.startswith("cluster_bad"):
-            # class-level state survives the failed constructor: the next clusters are right
+            # class-level state after the failed constructor: the next clusters are right
             for n2, t2 in ((4, "square"), (7, "simple"), (3, "3sec")):
                 c2 = cell.Cluster(cell_radius=r, num_cells=n2, pos=pos, cell_type=t2, rotation=rot)
-                check_cluster_geometry(chk, c2, n2, t2, r, pos, rot, dict(case, after_failure=[n2, t2]),
-                                       ("cluster_after_failed_constructor", t2))
-        # the object still works after the rejected call
-        if hasattr(obj, "add_border_user"):
-            m0 = len(obj._users)
-            obj.add_border_user(45.0, 0.5)
-            if len(obj._users) != m0 + 1:
-                chk.fail(sig0 + ("object_unusable_after_a_rejected_call",), case, observed=len(obj._users), expected=m0 + 1)
-        chk.nontriv(("error_path", name, kind, rot))
+                check_cluster_geometry(chk, c2, n2, t2, r, pos, rot, dict(case, built_afterwards=[n2, t2]),
+                                       sig0 + ("cluster_built_afterwards",))
+        chk.nontriv(("invalid_call", name, kind, rot))
         chk.outcome("error_paths", (name, kind))
 
 
@@ -1931,11 +1981,11 @@ def main(chk: Check):
     chk.assume("every cluster sequence runs in a fork of a worker that has not built any cluster, so class-level "
                "state starts empty for each sequence")
     chk.extra["setter_history_depth"] = "3" if tier == "thorough" else "3 (2 for Cell3Sec and the CellWrap kinds)"
-    chk.assume("error paths: only calls for which the library documents an exception are required to raise "
-               "(ratio outside [0,1], user outside the cell, non-Node user, invalid sector, non-square size of a "
-               "square cluster, unknown cell type, wrap-around of a non-19 cluster, read-only setters); radius <= 0, "
-               "hexagon cluster sizes outside the table and min_dist_ratio >= 1 are not validated by the library "
-               "and are outside the domain; multi-cell Cluster calls are not required to be atomic")
+    chk.assume("invalid calls (tools/INVALID_CALL_POLICY.md): the property quantifies over valid shapes, positions, "
+               "ratios and sizes; whether an invalid call raises, which exception, and whether it changes the object "
+               "are recorded as outcomes only; required afterwards: the relations of the property hold for the state "
+               "the object reports, it stays usable, later valid calls equal those on a fresh object, clusters built "
+               "afterwards are right")
     chk.extra["quick_tier_design"] = ("covering design over pos x radius x rotation for containment, border points, "
                                       "clusters and E2 (every kind x every rotation; all pos/radius pairs); thorough "
                                       "= full product")
